@@ -229,6 +229,10 @@ func Unprotect(b []byte) {
 	protected = nil
 }
 
+// Freeze marks, under the engine, every object reachable from v as shared state that must
+// not be written any more (the concurrency property's sufficient condition). Natively a no-op.
+func Freeze(v any, label string) int { return 0 }
+
 func CheckProtected() {
 	for _, p := range protected {
 		if !eq(p.full, p.snap) {
